@@ -94,4 +94,11 @@ example : exampleMember.text = " userId : -1 ".toList ∧ exampleMember.redacted
 example : redactPlanWith markName "IXSCAN { user: 1, userId: -1 }".toList = "IXSCAN { <user>: 1, <userId>: -1 }".toList := by
   decide +kernel
 
+/-- **bare operator keys** (obligation on the REGENERATED core table): the only keys of the core operator table that do
+    not start with `$` - and that a user field of the same name is therefore mistaken for under `--redactFieldNames`
+    (recorded known finding) - are `if`, `then`, `else`; a new bare key would silently exempt every user field of that name -/
+theorem C15_bare_core_keys :
+    ((Generated.tables.core.filter fun p => !dollarPrefixed p.1).map (·.1)) = ["if".toList, "then".toList, "else".toList] := by
+  decide +kernel
+
 end Anonymongo
